@@ -29,6 +29,13 @@ def scenarios(tier, seed):
                                  ("AB_rev", ("grid", 2, 1, 1, 0), "order3_repeat", ("graph", "path_isolated")), ("none", ("graph", "pair"), "chstt_B", ("grid", 3, 1, 1, 1))):
             out.append(dict(net=n1, space=s1, option=o, policy="on_iteration", isp="none", n_req=1, calls=["iterate", "fetch", "finalize", "init2", "iterate", "iterate", "fetch", "finalize"],
                             other=(n2, s2, o), fields=("state",) if o == "euler" else (), max_paths=80, budget_s=90))
+    # set-ups that are not preceded by finalize (an interrupted run), across the two space types: X finalized, Y set up and left, X set up again
+    for o in ("euler", "gillespie"):
+        for (n1, s1, n2, s2) in ((("AB_rev", ("grid", 2, 1, 1, 0), "AB_rev", ("graph", "pair"))), ("AB_rev", ("graph", "pair"), "none", ("grid", 2, 1, 1, 1))):
+            out.append(dict(net=n1, space=s1, option=o, policy="on_iteration", isp="none", n_req=1, calls=["iterate", "finalize", "init2", "iterate", "init", "iterate", "fetch", "finalize"],
+                            other=(n2, s2, o), fields=(), max_paths=80, budget_s=90))
+            out.append(dict(net=n1, space=s1, option=o, policy="on_iteration", isp="none", n_req=1, calls=["iterate", "init2", "iterate", "init", "iterate", "fetch", "finalize", "finalize"],
+                            other=(n2, s2, o), fields=(), max_paths=80, budget_s=90))
     # initial-state processing modes (Poisson / redistribution draw stubs; sub-molecule and empty cells are solver-chosen)
     for o in OPTS:
         for isp in ("auto", "Poisson", "redist"):
